@@ -42,6 +42,8 @@ Fixpoint sqdist (l1 l2 : list Z) : Z :=
   | _, _ => 0
   end.
 
+Definition two24 : Z := 16777216.                 (* integers up to 2^24 are exact in binary32 *)
+
 (* 0, 1, ..., n-1 *)
 Definition zseq (n : Z) : list Z := map Z.of_nat (seq 0 (Z.to_nat n)).
 
